@@ -64,6 +64,8 @@ func init() {
 		"reflect.TypeOf":            reflectTypeOf,
 		"reflect.ValueOf":           reflectValueOf,
 		"reflect.DeepEqual":         reflectDeepEqual,
+		"unicode/utf8.Valid":        utf8Valid,
+		"unicode/utf8.ValidString":  utf8Valid,
 		"(*crypto/rand.reader).Read": cryptoRandRead,
 		"(*encoding/base64.Encoding).EncodeToString": base64EncodeToString,
 		"(reflect.Value).Kind":      reflectKind,
@@ -736,4 +738,57 @@ func syncPoolPut(fr *frame, a []Value) Value {
 	}
 	e.pools[p] = append(e.pools[p], a[1])
 	return nil
+}
+
+// unicode/utf8.Valid / ValidString as one term over the (symbolic) bytes: the well-formedness automaton of
+// the Unicode standard (table 3-7), its state a 4-bit vector, one if-then-else cascade per byte.
+// States: 0 start/accept, 1..3 that many continuation bytes 80..BF to go, 4 after E0 (A0..BF, then 1),
+// 5 after ED (80..9F, then 1), 6 after F0 (90..BF, then 2), 7 after F4 (80..8F, then 2), 8 reject.
+func utf8Valid(fr *frame, a []Value) Value {
+	th := fr.th
+	p := th.eng.pool
+	var bs []*Term
+	switch x := a[0].(type) {
+	case Str:
+		for i := 0; i < x.Len(); i++ {
+			bs = append(bs, x.At(p, i))
+		}
+	case Slice:
+		if x.arr != nil || !x.ln.IsConst() || !x.off.IsConst() {
+			panic(inconclusive{"utf8.Valid on a slice of symbolic extent"})
+		}
+		for i := uint64(0); i < x.ln.Val; i++ {
+			th.eng.access(th, &x.data[x.off.Val+i], false)
+			bs = append(bs, x.data[x.off.Val+i].(*Term))
+		}
+	default:
+		panic(inconclusive{fmt.Sprintf("utf8.Valid on %T", a[0])})
+	}
+	st := func(n uint64) *Term { return p.BV(n, 4) }
+	in := func(b *Term, lo, hi uint64) *Term {
+		return p.BAnd(p.Cmp(OpUle, p.BV(lo, 8), b), p.Cmp(OpUle, b, p.BV(hi, 8)))
+	}
+	state := st(0)
+	for _, b := range bs {
+		fromStart := p.Ite(in(b, 0x00, 0x7f), st(0),
+			p.Ite(in(b, 0xc2, 0xdf), st(1),
+				p.Ite(p.Cmp(OpEq, b, p.BV(0xe0, 8)), st(4),
+					p.Ite(p.Cmp(OpEq, b, p.BV(0xed, 8)), st(5),
+						p.Ite(in(b, 0xe1, 0xef), st(2),
+							p.Ite(p.Cmp(OpEq, b, p.BV(0xf0, 8)), st(6),
+								p.Ite(in(b, 0xf1, 0xf3), st(3),
+									p.Ite(p.Cmp(OpEq, b, p.BV(0xf4, 8)), st(7), st(8)))))))))
+		cont := in(b, 0x80, 0xbf)
+		next := st(8)
+		next = p.Ite(p.Cmp(OpEq, state, st(7)), p.Ite(in(b, 0x80, 0x8f), st(2), st(8)), next)
+		next = p.Ite(p.Cmp(OpEq, state, st(6)), p.Ite(in(b, 0x90, 0xbf), st(2), st(8)), next)
+		next = p.Ite(p.Cmp(OpEq, state, st(5)), p.Ite(in(b, 0x80, 0x9f), st(1), st(8)), next)
+		next = p.Ite(p.Cmp(OpEq, state, st(4)), p.Ite(in(b, 0xa0, 0xbf), st(1), st(8)), next)
+		next = p.Ite(p.Cmp(OpEq, state, st(3)), p.Ite(cont, st(2), st(8)), next)
+		next = p.Ite(p.Cmp(OpEq, state, st(2)), p.Ite(cont, st(1), st(8)), next)
+		next = p.Ite(p.Cmp(OpEq, state, st(1)), p.Ite(cont, st(0), st(8)), next)
+		next = p.Ite(p.Cmp(OpEq, state, st(0)), fromStart, next)
+		state = next
+	}
+	return p.Cmp(OpEq, state, st(0))
 }
